@@ -72,6 +72,7 @@ type Opts struct {
 	Hand      bool // calls of hand-written components with blocks (wrap/ignore/once/flush/raw)
 	Prefix    string // prefix of template names (several files in one package)
 	OnceFlush bool   // also call once handles and templ.Flush() with blocks (C13)
+	Fragment  bool   // restrict the grammar to the fragment of coq/model/IrFrag.v (C02 proof layer): see frag.go
 }
 
 func Default() Opts {
@@ -139,6 +140,9 @@ func (g *G) boolExpr() string {
 }
 
 func (g *G) attr(el string, depth int) string {
+	if g.o.Fragment {
+		return g.fragAttr(el, depth)
+	}
 	switch g.r.Intn(12) {
 	case 0:
 		return rng.Pick(g.r, []string{`class="c1 c2"`, `id="i1"`, `data-x="1"`, `title="a &amp; b"`, `title='sq'`, `lang="en"`})
@@ -222,6 +226,9 @@ func (g *G) nodes(depth int) []*node {
 }
 
 func (g *G) node(depth int) *node {
+	if g.o.Fragment {
+		return g.fragNode(depth)
+	}
 	leaf := depth <= 0
 	k := g.r.Intn(100)
 	switch {
@@ -558,7 +565,13 @@ func File(r *rng.R, o Opts) string {
 		p.sb.WriteString("}\n\n")
 		sb.WriteString(p.sb.String())
 	}
-	sb.WriteString("templ " + o.Prefix + "Card" + Sig + " {\n\t<section>{ children... }</section>\n}\n")
+	if o.Fragment {
+		// fragment-only files (C02 proof layer) have no children slot: no Card template
+	} else if r.Bool() {
+		sb.WriteString("templ " + o.Prefix + "Card" + Sig + " {\n\t<section>{ children... }</section>\n}\n")
+	} else {
+		sb.WriteString("templ " + o.Prefix + "Card" + Sig + " {\n\t<section>\n\t\t{ children... }\n\t</section>\n}\n")
+	}
 	if r.Intn(4) == 0 {
 		sb.WriteString("\nfunc " + o.Prefix + "helperAfter() string { return \"x\" }\n")
 	}
